@@ -20,7 +20,8 @@ Time has the granularity of the extraction: an operation at index `t` owns the t
   (operations whose commands interleave — a cascade — must therefore share one index).
 * `clobbers`   — two different tensors may share one `LiveRange` object (hence one address) only if no value is
   lost: between the write of a value and each read of it no *other* operation writes a different tensor of
-  the same `LiveRange`.  (Positions are command positions, so this is finer than ticks across operations; the
+  the same `LiveRange` — except a copy *of that value* inside the range object (source and destination are the
+  same bytes; Vela emits a NOP for it), which changes nothing.  (Positions are command positions, so this is finer than ticks across operations; the
   order of accesses inside one operation — and inside one cascade, whose operations share a time index — is the
   subject of C03/C10, not of this Spec.)
 -/
@@ -121,7 +122,9 @@ def lrOf (n : Net) (t : Nat) : Option Nat := (rangeOf n t).map (·.lr)
 def clobberedBy (n : Net) (t l op : Nat) : List Cmd → Option Cmd
   | [] => none
   | c :: earlier =>
-    if c.op != op && c.writes.any (fun y => y != t && lrOf n y == some l) then some c
+    -- a copy whose source `t` and destination share the range object (a Memcpy that became a NOP: MEAN / RESHAPE over a
+    -- unit axis at a subgraph edge) rewrites the bytes with their own content: the value of `t` is not lost
+    if c.op != op && !(c.kind == .copy && c.reads.contains t) && c.writes.any (fun y => y != t && lrOf n y == some l) then some c
     else if c.writes.contains t then none
     else clobberedBy n t l op earlier
 
